@@ -63,6 +63,8 @@ def run(ctx):
     if ctx.quick:
         sel = [x for x in sel if x[0] % 3 == off % 3 or x[2] >= 28]
     cases = [{"date": x, "tss": TSS[:2] if ctx.quick else TSS} for x in sel]
+    # dates outside 1990-2029 that the year pattern still accepts, incl. the century rule (1900 is not a leap year)
+    cases += [{"date": x, "tss": TSS[:2]} for x in [(1900, 2, 28), (1900, 3, 1), (1999, 12, 31), (1996, 2, 29), (1904, 2, 29), (1950, 6, 15)]]
     core.run_stage(ctx, "rule-rows", cases, rows_for_date, "RulesTrace", sig_keys=(), nontrivial=lambda c: c["date"])
     # end to end
     if ctx.quick:
